@@ -20,3 +20,6 @@ open Martian.Props.C12
 #print axioms rejected_leaves_previous
 #print axioms accepted_replaces_completely
 #print axioms traffic_follows_last_accepted
+#print axioms facts_servePOST_order
+#print axioms facts_servePOST_parse_then_swap
+#print axioms facts_priority_insert_test
